@@ -502,6 +502,20 @@ func (p *pparser) pipe() stream.Stream[pv] {
 			n, err := strconv.ParseInt(strings.TrimSpace(string(b)), 10, 64)
 			return pv{I: n}, err
 		})
+	case "frommap":
+		xs, err := parseInts(p.next())
+		if err != nil && p.err == nil {
+			p.err = err
+		}
+		m := map[int64]bool{}
+		for _, x := range xs {
+			m[x] = true
+		}
+		return stream.Map(stream.FromMapKeys(m), func(x int64) pv { return pv{I: x} })
+	case "flatmap":
+		return stream.FlatMap(p.pipe(), func(v pv) stream.Stream[pv] { return stream.Just(v, pv{I: v.key() + 100}) })
+	case "peek":
+		return p.pipe().Peek(func(pv) {})
 	case "fromiter":
 		xs, err := parseInts(p.next())
 		if err != nil && p.err == nil {
@@ -566,6 +580,15 @@ func (p *pparser) pipe() stream.Stream[pv] {
 		}
 		return stream.Empty[pv]()
 	}
+}
+
+func sortedTokens(s string) string {
+	if s == "-" {
+		return s
+	}
+	t := strings.Split(s, ",")
+	sort.Strings(t)
+	return strings.Join(t, ",")
 }
 
 // countFds: open file descriptors of this process (file provider leak detector)
@@ -635,6 +658,34 @@ func execPipe(caseText string) (obs string) {
 		fds0 := countFds()
 		obsF := execPipe(body)
 		ff := "-"
+		hist := strings.Split(body, " || ")
+		if len(hist) > 2 {
+			// history of materialisations of ONE stream value (C18): every fault-free materialisation must deliver
+			// what a FRESH stream value delivers for the same run (as a multiset: map sources have no order)
+			verdict := "ok"
+			runsObs := strings.Split(obsF, " || ")
+			for i, run := range hist[1:] {
+				if !strings.HasSuffix(run, " nofault") || i >= len(runsObs) {
+					continue
+				}
+				fresh := strings.Fields(execPipe(hist[0] + " || " + run))
+				got := strings.Fields(runsObs[i])
+				same := len(fresh) >= 2 && len(got) >= 2 && fresh[0] == got[0]
+				if same {
+					if strings.Contains(run, " take:") {
+						// an early stop over a map source may deliver ANY n of the elements: compare the count only
+						same = len(strings.Split(fresh[1], ",")) == len(strings.Split(got[1], ",")) && (fresh[1] == "-") == (got[1] == "-")
+					} else {
+						same = sortedTokens(fresh[1]) == sortedTokens(got[1])
+					}
+				}
+				if !same {
+					verdict = fmt.Sprintf("DIFF:run%d", i)
+					break
+				}
+			}
+			return obsF + " | rematerialise=" + verdict
+		}
 		if i := strings.LastIndex(body, " "); i >= 0 && !strings.HasSuffix(body, " nofault") {
 			twin := body[:i] + " nofault"
 			o2 := execPipe(twin)
